@@ -310,7 +310,7 @@ func (e *Engine) verifyUnit(name string) (err error) {
 		e.oblige(fr.entry, "nopanic", "exits-by-panic", "true", ct.NoPanic, fn.Pos())
 	}
 	// vacuity: at least one return path must be feasible (checked as a disjunctive cover)
-	if nret > 0 {
+	if nret > 0 && !e.sweepOnly {
 		o := &Oblig{Kind: "cover", Func: name, Label: "return", Cover: true}
 		o.Name = fmt.Sprintf("%s/%s/cover:return", e.curProp, name)
 		// satisfiable if any of the sampled return paths is
@@ -319,7 +319,9 @@ func (e *Engine) verifyUnit(name string) (err error) {
 		}
 		e.obls = append(e.obls, o)
 	}
-	e.unitStats = append(e.unitStats, fmt.Sprintf("%s: paths=%d returns=%d panics=%d", name, e.paths, nret, npanic))
+	if !e.sweepOnly {
+		e.unitStats = append(e.unitStats, fmt.Sprintf("%s: paths=%d returns=%d panics=%d", name, e.paths, nret, npanic))
+	}
 	return nil
 }
 
@@ -594,6 +596,71 @@ func main() {
 			}
 			fmt.Fprintln(os.Stderr, "govc:", err)
 			os.Exit(2)
+		}
+	}
+	// module-wide rules of a swept property are also checked in every other function of the module
+	if pd := e.spec.Properties[prop]; pd != nil && pd.Sweep && *flagUnit == "" {
+		listed := map[string]bool{}
+		for _, u := range units {
+			listed[u] = true
+		}
+		var rest []string
+		for n, f := range e.fns {
+			if !listed[n] && len(f.Blocks) > 0 && f.Synthetic == "" && !strings.HasSuffix(n, "$bound") && !strings.Contains(n, "[") {
+				rest = append(rest, n)
+			}
+		}
+		sort.Strings(rest)
+		e.sweepOnly = true
+		nsw := 0
+		for _, u := range rest {
+			nerr := len(e.specErrs)
+			if err := e.verifyUnit(u); err != nil {
+				e.warnings = append(e.warnings, "sweep: "+u+" skipped: "+err.Error())
+			} else {
+				nsw++
+			}
+			e.specErrs = e.specErrs[:nerr] // contracts of other properties are not this sweep's business
+		}
+		e.sweepOnly = false
+		notes = append(notes, fmt.Sprintf("module-wide rules of %s were also checked in %d further functions (sweep)", prop, nsw))
+	}
+	// a type all of whose methods are units of this property is a data structure under contract: a method added to it
+	// is a new public operation that must preserve the same invariants, so it needs a contract of its own
+	if e.names != nil && e.names.base != nil && *flagUnit == "" {
+		recvOf := func(n string) string {
+			if strings.Contains(n, "$") || !strings.HasPrefix(n, "(") {
+				return ""
+			}
+			if i := strings.Index(n, ")."); i > 0 {
+				return strings.TrimPrefix(n[1:i], "*")
+			}
+			return ""
+		}
+		isUnit := map[string]bool{}
+		for _, u := range units {
+			isUnit[u] = true
+		}
+		full := map[string]bool{}
+		for _, u := range units {
+			if t := recvOf(u); t != "" {
+				full[t] = true
+			}
+		}
+		for n := range e.names.base {
+			if t := recvOf(n); t != "" && full[t] && !isUnit[n] {
+				full[t] = false
+			}
+		}
+		var added []string
+		for n, f := range e.fns {
+			if t := recvOf(n); t != "" && full[t] && e.isNewCode(f) && e.spec.Contracts[n] == nil {
+				added = append(added, n)
+			}
+		}
+		sort.Strings(added)
+		for _, n := range added {
+			missing = append(missing, fmt.Sprintf("contract-target-missing: %s is a new method on a type whose every method is under contract for %s; it has no contract", n, prop))
 		}
 	}
 	// vacuity of site rules: an assertion attached to a call/site that never occurs in the verified code checks nothing
